@@ -148,8 +148,12 @@ asn_encode(const asn_codec_ctx_t *opt_codec_ctx,
     er = asn_encode_internal(opt_codec_ctx, syntax, td, sptr,
                              callback_failure_catch_cb, &cb_key);
     if(cb_key.callback_failed) {
-        assert(er.encoded == -1);
-        assert(errno == EBADF);
+        /*
+         * Whatever the type-specific encoder made of the callback's failure
+         * (not every one of them propagates it, or sets errno), the caller
+         * is promised -1/EIO.
+         */
+        er.encoded = -1;
         errno = EIO;
     }
 
